@@ -4,6 +4,8 @@
 f1_0:
   ret
   call f15_0
+  mov wvsv1@GOTPCREL(%rip),%rax
+  mov wvsv0(%rip),%rax
   ret
 .section .text.f1_1,"ax",@progbits
 .globl f1_1
@@ -12,4 +14,5 @@ f1_1:
   ret
   call f5_1
   call f13_0
+  mov wvsv0@GOTPCREL(%rip),%rax
   ret
